@@ -12,7 +12,7 @@ RULE = ('cases = (a) [Table-Form]/Cubic_Spline_Table_Form: every strictly increa
         'in the same process; (b) TableReader: every file of <= 4 rows of a 4-row pool in every row order x 8 formatting variants '
         '(comments, blanks, tabs, extra columns, CRLF, with/without final newline); (c) plot/plotToFile/plotPotentialObject(ToFile) '
         'x 5x5 ranges x steps in {1,2,3,10,17}; non-trivial = every case (data sets have distinct, non-collinear y values)')
-RULE += '; wrapped xy layouts with 3 / 5 values per line; 257- and 1000-point tables; y values of magnitude 1e-19 and 1e12; reader look-ups in descending / interleaved / outside-then-inside order; numpy-returning callables and numpy bounds for the plot functions; number spellings (.5, 15e-1) in reader files'
+RULE += '; wrapped xy layouts with 3 / 5 values per line; 257- and 1000-point tables; y values of magnitude 1e-19 and 1e12; reader look-ups in descending / interleaved / outside-then-inside order; numpy-returning callables and numpy bounds for the plot functions; number spellings (.5, 15e-1) in reader files; reader rows that carry a trailing # annotation; the DatReader behind TableReader with input / output converters'
 ASSUMPTIONS = [
     'the interpolant of a table form is whatever cubic spline scipy builds: only pass-through, zero outside, xy == x/y and derivative consistency are demanded',
     'derivative consistency: deriv/deriv2 compared with Richardson-extrapolated central differences of the callable itself (tolerance 1e-6 x scale), away from knots',
@@ -60,7 +60,7 @@ def cases(tier):
     pool = [(1.0, 10.0), (2.0, 20.0), (3.0, 35.0), (4.5, -2.5)]
     for n in (1, 2, 3, 4):
         for rows in itertools.permutations(range(4), n):
-            for variant in range(11):          # (variant 10: a header line that the caller has read before handing the file object over)
+            for variant in range(13):          # (variant 11: annotated data rows; 12: the underlying DatReader with unit converters; variant 10: a header line that the caller has read before handing the file object over)
                 out.append(dict(kind='reader', rows=list(rows), variant=variant))
     # files larger than any read-ahead buffer: 60 000 and 200 000 rows (1.7 MB, 5.9 MB)
     for nrows in (60000, 200000):
@@ -191,8 +191,10 @@ def pool_of(variant):
 
 
 def reader_text(rows, variant):
-    if variant == 10:
+    if variant in (10, 12):
         return reader_text(rows, 0)
+    if variant == 11:
+        return '\n'.join(('%g %g' % POOL[k]) + ('   # minimum' if i % 2 == 0 else ' # row %d  #' % i) for i, k in enumerate(rows)) + '\n'
     if variant >= 8:
         return '\n'.join(SPELL[variant][k] for k in rows) + '\n'
     ls = []
@@ -233,9 +235,15 @@ def run_reader(case):
         fobj = io.StringIO('%d 0.25\n' % len(case['rows']) + text, newline='')
         fobj.readline()
         t = TableReader(fobj)
+    elif case['variant'] == 12:
+        # the reader class behind TableReader, with its unit converters (increasing in x): the table is the converted one
+        from atsim.potentials._tablereaders import DatReader
+        t = DatReader(io.StringIO(text, newline=''), inputConvert=lambda x: 0.5 * x + 0.25, outputConvert=lambda y: 2.0 * y + 1.0).getValue
     else:
         t = TableReader(io.StringIO(text, newline=''))
     data = sorted(pool_of(case['variant'])[k] for k in case['rows'])
+    if case['variant'] == 12:
+        data = [(0.5 * a + 0.25, 2.0 * b + 1.0) for a, b in data]
     n = 0
     for xv, yv in data:
         n += 1
